@@ -178,10 +178,20 @@ def besselk(ctx, n, z, **kwargs):
 
 @defun_wrapped
 def hankel1(ctx,n,x,**kwargs):
+    # J and Y are both dominant where H1 is recessive (upper half-plane,
+    # complex order), so J + i*Y cancels catastrophically there. Use
+    # H1_n(x) = 2/(pi*i) * exp(-i*pi*n/2) * K_n(-i*x), -pi/2 < arg x <= pi
+    if ctx.im(x) > 0 or (ctx.im(n) and ctx.im(x) == 0 and ctx.re(x) > 0):
+        w = ctx.mpc(ctx.im(x), -ctx.re(x))
+        return -2j/ctx.pi * ctx.expjpi(-n/2) * ctx.besselk(n, w, **kwargs)
     return ctx.besselj(n,x,**kwargs) + ctx.j*ctx.bessely(n,x,**kwargs)
 
 @defun_wrapped
 def hankel2(ctx,n,x,**kwargs):
+    # H2_n(x) = -2/(pi*i) * exp(i*pi*n/2) * K_n(i*x), -pi < arg x <= pi/2
+    if ctx.im(x) < 0 or (ctx.im(n) and ctx.im(x) == 0 and ctx.re(x) > 0):
+        w = ctx.mpc(-ctx.im(x), ctx.re(x))
+        return 2j/ctx.pi * ctx.expjpi(n/2) * ctx.besselk(n, w, **kwargs)
     return ctx.besselj(n,x,**kwargs) - ctx.j*ctx.bessely(n,x,**kwargs)
 
 @defun_wrapped
